@@ -78,7 +78,22 @@ func c15SSH(c *Ctx, pxs []*c15Proxier) {
 		return
 	}
 	h := px.sv.Handle
+	// the handler, its function literals and the helpers of the package it calls (closures may have become methods)
 	fns := allFuncs(h)
+	{
+		seenF := map[*ssa.Function]bool{}
+		for _, f := range fns {
+			seenF[f] = true
+		}
+		for _, f := range px.reach {
+			for _, g := range allFuncs(f) {
+				if !seenF[g] {
+					seenF[g] = true
+					fns = append(fns, g)
+				}
+			}
+		}
+	}
 
 	// ----- A. credentials
 	var ncc *ssa.Call
@@ -284,10 +299,11 @@ func c15SSH(c *Ctx, pxs []*c15Proxier) {
 			for _, g := range fns {
 				for _, site := range Calls(g) {
 					sc := site.Common()
-					if sc.IsInvoke() || c15FuncOf(sc.Value) != fn || len(sc.Args) != 2 {
+					ii, di := paramIdx(inParam), paramIdx(dstParam)
+					if sc.IsInvoke() || c15FuncOf(sc.Value) != fn || ii < 0 || di < 0 || ii >= len(sc.Args) || di >= len(sc.Args) {
 						continue
 					}
-					from, to := px.leg(sc.Args[0], 0), px.leg(sc.Args[1], 0)
+					from, to := px.leg(sc.Args[ii], 0), px.leg(sc.Args[di], 0)
 					dirs[[2]int{from, to}]++
 					okS := from != legUnknown && to == otherLeg(from)
 					c.Check(okS, "ssh-request-relay", fmt.Sprintf("request pump %s → %s", legName(from), legName(to)), p.InstrPos(site), "", "a request pump does not connect one side's request stream to the other side's channel")
